@@ -1405,3 +1405,22 @@ func r097(c *Ctx, r *R) {
 		r.Check(!window, key, s.Pos(), "the innermost loop around alert() ranges over "+src+" (one element per peer/metric pair)", f.Name()+" calls alert() once per entry of one peer's metrics window ("+src+"): FailedMetric is decided per (name, peer), so a window holding N expired entries alerts about N/2 times in the round that detects the failure instead of once")
 	}
 }
+
+func init() {
+	register(&Rule{ID: "R02.7", Props: []string{"C02"}, Floor: 1, Title: "a failed batch commit is never reported as success: BatchingState.Commit returns the datastore batch's own error (the batch worker, R02.5, keeps counter and timer only on that error)", Run: r027})
+}
+
+func r027(c *Ctx, r *R) {
+	f := c.fn(r, "state/dsstate", "BatchingState.Commit")
+	if f != nil {
+		ok, n := true, 0
+		for _, lf := range returnLeaves(f, 0) {
+			n++
+			call, _ := originCall(lf.Val)
+			if call == nil || !nameMatches(callName(call.Common()), "go-datastore.Batch).Commit") {
+				ok = false
+			}
+		}
+		r.Check(ok && n > 0, "batchingstate:returns-commit-error", f.Pos(), "BatchingState.Commit returns exactly the datastore batch's Commit result", "BatchingState.Commit can return something other than the datastore batch's error (a constant nil, a shadowed result): the batch worker takes a failed commit for a success, resets its counter, leaves the age timer idle, and the accepted operations are never committed")
+	}
+}
